@@ -8,6 +8,8 @@ Line protocol for C13 (parsing / printing only; every computation is a `Model/Wa
   chidx  XS YS R2 PAD
   extract ND HASNAN ADDNAN NS K M  XS YS R2  OFF LEN  SAMPLES PEAKS
   bin    NS NC K M  XS YS R2  SAMPLES CLUSTERS CHANS  MAXWF OFF LEN CS  SCHED CHOICE  LABELS INDICES  MODE
+  bounds NS CS SAMPLES          chunk list of `extract_wfs_cbin` and the table rows each job receives: s0,s1,lo,hi per chunk
+  tmpl   NNB LEN WFS            `np.nanmedian(wfs, axis=0)` doubled (`template2`), WFS = waveforms ';' rows '|' samples ',' ('n' = NaN)
 
 The test recording is the formula `value(channel c, sample t) = (t*K + c) % M` (the harness writes the same
 numbers into the file it hands to the real code).
@@ -49,6 +51,18 @@ def recArr (nrows ns K M : Nat) : Arr :=
   ⟨nrows, ns, fun c t => some (Int.ofNat ((t * K + c) % M))⟩
 
 def errS (e : Err) : String := "err " ++ e.toString
+
+def optInt? (s : String) : Option (Option Int) := if s = "n" then some none else (s.toInt?).map some
+def wfs? (s : String) : Option (List Wf) :=
+  if s = "-" then some [] else
+  (s.splitOn ";").mapM fun w => (w.splitOn "|").mapM fun r => (r.splitOn ",").mapM optInt?
+
+/-- chunk `i`: bounds `[i*cs, chunkEnd)` and the slice `[lo, hi)` of the (ascending) sample column that `chunkRows` takes -/
+def boundsLine (ns cs : Nat) (col : List Int) : String :=
+  let n := (chunkStarts ns cs).length
+  ";".intercalate ((List.range n).map fun i =>
+    let s1 := chunkEnd ns cs n i
+    s!"{i * cs},{s1},{searchLeft col ((i * cs : Nat) : Int)},{searchLeft col ((s1 : Nat) : Int)}")
 
 def step (t : List String) : String :=
   match t with
@@ -104,6 +118,15 @@ def step (t : List String) : String :=
             s!" load={showList lrows}"
       | _, _, _, _, _, _, _, _ => "bad-op"
     | _, _, _, _, _, _, _, _, _, _ => "bad-op"
+  | ["bounds", ns, cs, samples] =>
+    match nat? ns, nat? cs, intList? samples with
+    | some ns, some cs, some col =>
+      if ns = 0 then "err IndexError" else if cs = 0 then "bad-op" else "ok " ++ boundsLine ns cs col
+    | _, _, _ => "bad-op"
+  | ["tmpl", nnb, len, wfs] =>
+    match nat? nnb, nat? len, wfs? wfs with
+    | some nnb, some len, some wfs => "ok " ++ showWfs [template2 nnb len wfs]
+    | _, _, _ => "bad-op"
   | _ => "bad-op"
 
 def main : IO Unit := run step
